@@ -308,7 +308,49 @@ func c05GenRecs(t *rapid.T) []hx.RecSpec {
 	if rapid.IntRange(0, 4).Draw(t, "scryptFile") == 0 {
 		return []hx.RecSpec{{Kind: "scrypt", Pass: genPass(t), WF: rapid.IntRange(1, 8).Draw(t, "wf")}}
 	}
-	return genRecipients(t, 6, false, true)
+	recs := genRecipients(t, 6, false, true)
+	if rapid.IntRange(0, 5).Draw(t, "oddRSA") == 0 {
+		// an ssh-rsa key whose modulus length is not a multiple of 8 bits
+		recs[rapid.IntRange(0, len(recs)-1).Draw(t, "oddPos")] = hx.RecSpec{Kind: "rsa", Idx: 4}
+	}
+	return recs
+}
+
+// one identity value per kind decrypts a whole sequence of reference-written
+// files (same and different salts, work factors, sizes): existing files keep
+// decrypting whatever was decrypted before
+type c05Seq struct {
+	Kind  string `json:"kind"`
+	Files []struct {
+		Seed uint64 `json:"seed"`
+		WF   int    `json:"wf"`
+		Len  int    `json:"len"`
+	} `json:"files"`
+}
+
+func c05CheckSeq(c c05Seq, st *stats.Run) error {
+	p := hx.ThePool()
+	spec := hx.RecSpec{Kind: c.Kind, Idx: 1, Pass: "sequence passphrase"}
+	var id age.Identity
+	if c.Kind == "scrypt" {
+		sid, _ := age.NewScryptIdentity(spec.Pass)
+		id = sid
+	} else {
+		id = p.Identity(spec)
+	}
+	st.Case(len(c.Files) >= 2, stats.HashJSON(c), "seq:kind="+c.Kind, fmt.Sprintf("seq:files=%d", len(c.Files)))
+	st.Sample("identity-reuse", c)
+	for i, f := range c.Files {
+		spec.WF = f.WF
+		plain := hx.PRG(f.Seed+uint64(i)*7, f.Len)
+		// the same Seed gives the same salt / ephemeral share (refFile derives them from it)
+		file := refFile(p, []hx.RecSpec{spec}, hx.PRG(f.Seed+1, 16), f.Seed, plain).Bytes()
+		got, err, _ := decryptLib(file, hx.Delivery{Mode: "whole"}, []int{chunk}, false, id)
+		if err != nil || !bytes.Equal(got, plain) {
+			return pbt.Failf("C05/reference-file-rejected", "file %d of a sequence decrypted with ONE %s identity value does not decrypt: %v (sequence %+v)", i, c.Kind, err, c.Files)
+		}
+	}
+	return nil
 }
 
 func TestC05(t *testing.T) {
@@ -386,6 +428,18 @@ func TestC05(t *testing.T) {
 			s.St.Exhaust("a reference-written 258-chunk file (16 MiB)", 1)
 		}
 	}, dec)
+	pbt.Rapid(s, "identity-reuse", s.N(300, 2000), func(t *rapid.T) c05Seq {
+		c := c05Seq{Kind: rapid.SampledFrom([]string{"scrypt", "scrypt", "x25519", "ed25519", "rsa"}).Draw(t, "kind")}
+		n := rapid.IntRange(2, 5).Draw(t, "nfiles")
+		for i := 0; i < n; i++ {
+			c.Files = append(c.Files, struct {
+				Seed uint64 `json:"seed"`
+				WF   int    `json:"wf"`
+				Len  int    `json:"len"`
+			}{rapid.Uint64Range(0, 2).Draw(t, "seed"), rapid.IntRange(1, 5).Draw(t, "wf"), rapid.SampledFrom([]int{0, 10, chunk}).Draw(t, "len")})
+		}
+		return c
+	}, func(c c05Seq) error { return c05CheckSeq(c, s.St) })
 	pbt.Rapid(s, "decrypt-reference-written", s.N(1500, 10000), func(t *rapid.T) c05DecCase {
 		return c05DecCase{Seed: rapid.Uint64Range(0, 1<<40).Draw(t, "seed"), PlainLen: genPlainLen(t, 3), Recs: c05GenRecs(t), Armor: rapid.Bool().Draw(t, "armor"), CRLF: rapid.Bool().Draw(t, "crlf")}
 	}, dec)
